@@ -40,6 +40,12 @@ def valid_default(rng, f, tmp, keypath):
         if F.has_opaque(enc):
             continue
         res = F.unproxy(out) if hasattr(F, "unproxy") else plain_copy(out)
+        if f.get("custom"):
+            # the default as it will be declared (a tuple becomes a list): the field's own validator has to accept that form too
+            try:
+                F.CATALOGUE[f["custom"]](None, list(res) if isinstance(res, tuple) else plain_copy(res))
+            except Exception:  # noqa
+                continue
         if f["k"] in ("list", "dict"):
             # a container default also has to survive construction (items of a list with AnyField items are only looked at there)
             try:
